@@ -189,8 +189,19 @@ func (w *World) EIOClientConfig(id int, o ClientOpts) eio.ClientConfig {
 }
 
 func (w *World) NewManager(id int, o ClientOpts) *sio.Manager {
+	return w.NewManagerEIO(id, o, nil)
+}
+
+// NewManagerEIO: a manager created with a given Engine.IO configuration (an application that creates
+// several clients from one configuration value shares its pointers - dial options, HTTP transport -
+// between them); nil = a configuration of its own.
+func (w *World) NewManagerEIO(id int, o ClientOpts, shared *eio.ClientConfig) *sio.Manager {
+	cfg := w.EIOClientConfig(id, o)
+	if shared != nil {
+		cfg = *shared
+	}
 	return sio.NewManager(URL, &sio.ManagerConfig{
-		EIO:                  w.EIOClientConfig(id, o),
+		EIO:                  cfg,
 		NoReconnection:       o.NoReconnection,
 		ReconnectionAttempts: o.ReconnectionAttempts,
 		ReconnectionDelay:    o.ReconnectionDelay,
